@@ -242,4 +242,20 @@ CHECKS = {
         'trusted_base': [KERNEL, AX, 'translator /verif/extract (go/ast): inventory of in-place write sites compared with the reviewed list in Pangaea/Object/WriteSites.lean', 'the fingerprint function of the harness'],
         'assumptions': ['the Lean model covers array values over Go slices (append semantics, any growth policy); objects and maps are covered by the write-site inventory and the runtime monitor', 'iterators (next / recur) and variables are the mutable things, by definition of the property'],
     },
+    'C19': {
+        'lean_modules': ['Pangaea.Theorems.C19'],
+        'theorem_modules': ['Pangaea.Theorems.C19'],
+        'theorems': ['Pangaea.C19.run_repaired', 'Pangaea.C19.runNext_repaired_state', 'Pangaea.C19.fresh_independent'],
+        'harness': ['C19'],
+        'shards': 14,
+        'spec_is_function': True,
+        'rule': 'histories of 0-6 generated programs (1-6 lines; a third of them failing with one of 37 failing shapes incl. `_`, abstract Either props, every error kind, failures inside calls/chains/literals; definitions of names, '
+                'blank lines shifting positions) followed by a probe (a third of the time the text of a history program, otherwise fresh, often reading a name a history program defined) in three styles: playground executor '
+                '(one interpreter, NewEnclosedEnv per program), `pangaea test` (runscript.RunTest over a directory of files; history files succeed), and action-programs for the Lean model. Oracle: (kind, value, error message, stack trace, '
+                'stdout, stderr, exit code) of the probe after the history equals that of the probe in a NEWLY STARTED PROCESS (the harness re-executes itself). non-trivial = history not empty; distinct by text',
+        'trusted_base': [KERNEL, AX, TIE, 'model Pangaea/Eval/Fresh.lean: the process state that outlives an evaluation is the shared `_` error object, the scope handed to the next program and the constant scope (inventory by reading; '
+                         'other package-level variables of the repository are immutable tables)'],
+        'assumptions': ['REPL lines share one scope by design and are not fresh evaluations', 'server request handlers (props/modules http) are not exercised: they evaluate user closures in the defining scope',
+                        'history programs cannot assign to built-in objects (the language has no property assignment); in-place writes by built-ins are the subject of C06'],
+    },
 }
